@@ -45,7 +45,7 @@ LEVEL_TEXT = ("Proved in Lean about a statement-by-statement model of the float 
               "under: radix feature implies power-of-two, no base prefix, not (empty body and no digits required), input shorter than (2^28-1200)/6 bytes "
               "(beyond that the saturating exponent accumulator is visible in the value), NumberExactAt for few-digit numbers; "
               "accepts_iff_grammar_of_numberExact reduces the whole class to the one open statement NumberExactC12 (def); accepts_iff_grammar_decimal_partial has C01Main's NumberExact as its one named hypothesis. accepts_iff_grammar itself stays a def: it is refuted on "
-              "the base-prefix finding (accepts_iff_grammar_refuted_by_prefix: format prefix_d_radix10, input '0').")
+              "the no-digits finding (C12.finding_empty_input); the former refutation by the base-prefix finding is repaired (regression_accepts_prefix_zero, regression_prefix_zero).")
 LEVEL_NOTE = "Trusted: Lean kernel; that Model.ParseNumber/Model.Iter mirror parse.rs/skip.rs (correspondence); Spec.Grammar is read off the documentation (kept short; reviewed by hand)."
 
 
